@@ -54,7 +54,11 @@ let hexs_int (b : int list) : string =
   | [] -> "-"
   | _ ->
     let len = List.length b in
-    if len > 600 then Printf.sprintf "#%d:%016Lx" len (fnv64 b)
+    if len > 600 then begin
+      let buf = Buffer.create 64 in
+      List.iteri (fun i x -> if i < 32 then Buffer.add_string buf (Printf.sprintf "%02x" x)) b;
+      Printf.sprintf "#%d:%s:%016Lx" len (Buffer.contents buf) (fnv64 b)
+    end
     else begin
       let buf = Buffer.create (2 * len) in
       List.iter (fun x -> Buffer.add_string buf (Printf.sprintf "%02x" x)) b;
@@ -129,6 +133,88 @@ let views2_one h =
     (nstr (version_or_command h.hcommand)) (nstr (protocol_or_family h.hprotocol (h_address_family h)))
     (nstr (tlvs_len (h_tlv_bytes h))) (b01 (tlvs_is_empty (h_tlv_bytes h)))
 
+(* ---- payload / builder syntax (same as the harness) ---- *)
+let types = [| ALPN; Authority; CRC32C; NoOp; UniqueId; SSL; SSLVersion; SSLCommonName; SSLCipher;
+               SSLSignatureAlgorithm; SSLKeyAlgorithm; NetworkNamespace |]
+
+let nat_of_int n = let rec go n acc = if n = 0 then acc else go (n - 1) (S acc) in go n O
+
+let z_of_string (s : string) =
+  let neg = String.length s > 0 && s.[0] = '-' in
+  let body = if neg then String.sub s 1 (String.length s - 1) else s in
+  let ds = List.init (String.length body) (fun i -> ntab.(Char.code body.[i] - 48)) in
+  z_of_digits neg ds
+
+(* consume an addr2 from a list of comma fields *)
+let addr2 (f : string list) : addresses * string list =
+  match f with
+  | "N" :: r -> (AUnspec, r)
+  | "4" :: sa :: da :: sp :: dp :: r -> (AIPv4 (mbytes sa, mbytes da, n_of_int (int_of_string sp), n_of_int (int_of_string dp)), r)
+  | "6" :: sa :: da :: sp :: dp :: r -> (AIPv6 (mbytes sa, mbytes da, n_of_int (int_of_string sp), n_of_int (int_of_string dp)), r)
+  | "X" :: s :: d :: r -> (AUnix (mbytes s, mbytes d), r)
+  | _ -> failwith "bad addr2"
+
+let split_once c s =
+  match String.index_opt s c with
+  | Some i -> (String.sub s 0 i, String.sub s (i + 1) (String.length s - i - 1))
+  | None -> failwith "split_once"
+
+let payload_of (s : string) : payload =
+  let (kind, rest) = split_once ':' s in
+  let int w = PInt (nat_of_int w, z_of_string rest) in
+  match kind with
+  | "u8" | "i8" -> int 1 | "u16" | "i16" -> int 2 | "u32" | "i32" | "r32" -> int 4
+  | "u64" | "i64" | "usize" | "isize" -> int 8 | "u128" | "i128" -> int 16
+  | "b" -> PBytes (mbytes rest)
+  | "a" -> PAddrs (fst (addr2 (split_on ',' rest)))
+  | "t" -> let (k, v) = split_once ':' rest in PTlv (n_of_int (int_of_string k), mbytes v)
+  | "q" -> let (k, v) = split_once ':' rest in PPair (n_of_int (int_of_string k), mbytes v)
+  | "Q" -> let (k, v) = split_once ':' rest in PPair (type_code types.(int_of_string k), mbytes v)
+  | "s" -> PSection (mbytes rest)
+  | "y" -> PType types.(int_of_string rest)
+  | k -> failwith ("bad payload kind " ^ k)
+
+let proto_of = function "0" -> PUnspec | "1" -> PStream | "2" -> PDatagram | _ -> failwith "bad proto"
+
+let ctor_of (s : string) : ctor =
+  match split_on ',' s with
+  | "N" :: vc :: afp :: [] -> CNew (n_of_int (int_of_string vc), n_of_int (int_of_string afp))
+  | "W" :: vc :: p :: r -> CWith (n_of_int (int_of_string vc), proto_of p, fst (addr2 r))
+  | "C" :: c :: p :: r ->
+    let cmd = (match c with "0" -> Local | "1" -> Proxy | _ -> failwith "bad cmd") in
+    CWith (version_or_command cmd, proto_of p, fst (addr2 r))
+  | _ -> failwith "bad ctor"
+
+let op_of (s : string) : bop =
+  let (k, arg) = split_once '=' s in
+  match k with
+  | "R" -> Reserve (n_of_int (int_of_string arg))
+  | "L" -> SetLength (if arg = "-" then None else Some (n_of_int (int_of_string arg)))
+  | "P" -> WritePayload (payload_of arg)
+  | "B" -> WritePayloads (if arg = "-" then [] else List.map payload_of (split_on '|' arg))
+  | "T" -> let (k, v) = split_once ':' arg in WriteTlv (n_of_int (int_of_string k), mbytes v)
+  | "TT" -> let (k, v) = split_once ':' arg in WriteTlv (type_code types.(int_of_string k), mbytes v)
+  | k -> failwith ("bad op " ^ k)
+
+let ops_of (s : string) : bop list = if s = "-" then [] else List.map op_of (split_on ';' s)
+
+let show_build c ops =
+  match brun c ops with
+  | BOk out -> "OK " ^ hexs out
+  | BErrAt i -> "ERR@" ^ nstr i
+  | BErrBuild -> "ERR@build"
+
+let rec drop n l = if n = 0 then l else match l with [] -> [] | _ :: r -> drop (n - 1) r
+
+let show_write pre p =
+  let n0 = List.length pre in
+  let (r, w) = write_to p pre in
+  let tb = (match to_bytes p with Some v -> "OK " ^ hexs v | None -> "ERR") in
+  let app = hexs (drop n0 w) in
+  match r with
+  | Some n -> Printf.sprintf "W=OK %s kept=1 app=%s TB=%s" (nstr n) app tb
+  | None -> Printf.sprintf "W=ERR kept=1 app=%s TB=%s" app tb
+
 (* ---- dispatch ---- *)
 let model_line (f : string list) : string =
   match f with
@@ -139,6 +225,8 @@ let model_line (f : string list) : string =
     (match p2 (mbytes x) with
      | Ok h -> Printf.sprintf "B[%s] O[%s]" (views2_one h) (views2_one (h_to_owned h))
      | Err _ -> "REJ")
+  | ["build"; c; ops] -> show_build (ctor_of c) (ops_of ops)
+  | ["write"; pre; p] -> show_write (mbytes pre) (payload_of p)
   | m :: _ -> failwith ("model: unknown mode " ^ m)
   | [] -> ""
 
@@ -156,6 +244,16 @@ let spec_line (f : string list) : string =
     (match v2_spec (mbytes x) with
      | Some h -> Printf.sprintf "ab=%s tb=%s %s" (hexs (spec_address_bytes h)) (hexs (spec_tlv_section h)) (v2_hdr h)
      | None -> "REJ")
+  | ["build"; c; ops] ->
+    (* reference encoder over the same history: expected bytes if the build succeeds *)
+    let c = ctor_of c and ops = ops_of ops in
+    let big = List.exists oversize (payloads ops) in
+    let blen = int_of_n (lenN (body c ops)) in
+    Printf.sprintf "EXP %s big=%s body=%d force=%s" (hexs (expected_output c ops)) (b01 big) blen
+      (match in_force ops with Some l -> nstr l | None -> "-")
+  | ["write"; pre; p] ->
+    let p = payload_of p in
+    Printf.sprintf "ENC %s big=%s" (hexs (enc_payload p)) (b01 (oversize p))
   | _ -> "-"
 
 let () =
